@@ -146,7 +146,7 @@ PANIC_CLASSES = [
 OWNER = re.compile(r"(Decoder\.next$|Decoder\.Next$|readStringAsBytes$|ReadStruct$|readUint8Slice$|decodeArguments$|sliceDecoder\.Decode$|"
                    r"arrayDecoder\.Decode$|byteArrayDecoder\.Decode$|mapDecoder\.decodeMap$|decodeListAsMap$|decodeObjectAsMap$|"
                    r"decodeMapAsObject$|listDecoder\.Decode$|readObject$|readObjectAsMap$|decodeObject$|clientCodec\.Decode$|"
-                   r"strConverter$)")
+                   r"strConverter$|decodeBigInt$|stringToBigRat$|stringToBigInt$|stringToBigFloat$)")
 
 
 def panic_class(msg):
@@ -264,7 +264,7 @@ def modelled(c):
         if c["entry"] != "unmarshal" or has_iface(c["t"]):
             return False
     b = bytes.fromhex(c["hex"])
-    if any(nm in b for nm in (b'"Key"', b'"HKey"', b'"Labels"', b'"Node"')):
+    if any(nm in b for nm in (b'Key', b'Labels', b'Node')):
         return False              # classes the executor registers beyond the model's registry (Pt, User)
     return True
 
@@ -482,6 +482,7 @@ def calibrate(ctx):
         "fx_next": U('b70000"ab'),
         "fx_str": U('s70000"ab'),
         "fx_refnil": {"entry": "client", "hex": b"Ra2{1r0;}z".hex(), "rt": [{"k": "int"}, {"k": "string"}]},
+        "fx_strwalk": dict(U('m1{uar0;}', {"k": "map", "key": {"k": "string"}, "e": {"k": "string"}}, "ref"), dump=True),
         "fx_strmap": dict(U('a2{c1"X"1{s1"f"}o0{n}r2;}', {"k": "slice", "e": {"k": "string"}}, "ref"), dump=True),
     }
     names = sorted(wit)
@@ -513,6 +514,9 @@ def calibrate(ctx):
                 # the tree goes on decoding 1 and 2 after the bad element; a loop that stops leaves them 0
                 fx[key] = o["outcome"] == "error" and o.get("dump") != "[0 1 2]"
             elif key == "refnil":
+                fx[key] = o["outcome"] == "error"
+            elif key == "strwalk":
+                # the tree prints a pointer to a map ("&map[]"); the walk refuses whatever lets fmt.Sprint reach a map
                 fx[key] = o["outcome"] == "error"
             elif key == "strmap":
                 fx[key] = "map[" not in (o.get("dump") or "")
@@ -1124,15 +1128,20 @@ def run(ctx):
     # megabytes, well under a second each), one per (destination, tag)
     def exp_rank(c):
         mm = re.search(rb"[eEpP][+-]?(\d+)", bytes.fromhex(c["hex"]))
-        return (abs(len(mm.group(1)) - 9) if mm else 99, len(c["hex"]), c["hex"])
-    be_seen, n_be = set(), 0
+        # math/big refuses a rational's exponent beyond 10^6 by itself: the costly texts are just below
+        return (abs(len(mm.group(1)) - (7 if b'"' in bytes.fromhex(c["hex"]) else 9)) if mm else 99, len(c["hex"]), c["hex"])
+    be_seen, n_be = set(), {True: 0, False: 0}
     for c in sorted([c for c in heavy if model[c["id"]]["class"] == "panic:big-exp"], key=exp_rank):
+        txt = b'"' in bytes.fromhex(c["hex"])
         sig = (json.dumps(c.get("t") or c.get("rt")), c["hex"][:2])
-        if sig in be_seen or n_be >= (6 if ctx.tier == "quick" else 40):
+        if sig in be_seen or n_be[txt] >= (4 if ctx.tier == "quick" else 20):
             continue
         be_seen.add(sig)
-        n_be += 1
+        n_be[txt] += 1
         chosen.append(c)
+    n_be = sum(n_be.values())
+    ctx.note("exponent_cases_executed", [bytes.fromhex(c["hex"])[:40].decode("latin1") + " -> " + json.dumps(c.get("t") or c.get("rt"))[:60]
+                                         for c in chosen if model[c["id"]]["class"] == "panic:big-exp"])
     ctx.note("heavy_cases", {"model_predicted": len(heavy), "executed": len(chosen), "of_them_exponents": n_be})
 
     obs, crashes = run_impl_frames(light, 4000, 4 if ctx.tier == "quick" else 30)
